@@ -49,8 +49,12 @@ type DialAttempt struct {
 
 // Network is the virtual network of one execution.
 type Network struct {
-	LibHost   string // source IP of library dials without LocalAddr
-	Coalesce  bool   // a Read may return bytes of several writes
+	LibHost  string // source IP of library dials without LocalAddr
+	Coalesce bool   // a Read may return bytes of several writes
+	// Window, if > 0, bounds the unread bytes queued in each direction of a connection
+	// (socket buffers + peer window): a Write blocks while the window is full, and returns
+	// a short count with a timeout error when a write deadline passes (back-pressure).
+	Window    int
 	listeners map[string]*Listener
 	handlers  map[string]func(attempt int, from *net.TCPAddr) DialOutcome
 	attempts  map[string]int
@@ -117,6 +121,8 @@ type Conn struct {
 	// Accepted is set when a library Accept returned this endpoint.
 	Accepted bool
 	rdl      int64 // virtual read deadline (0 = none)
+	wdl      int64 // virtual write deadline (0 = none)
+	writing  bool  // a Write is in progress (concurrent Writes are serialised, as on *net.TCPConn)
 }
 
 // Chunk is one logged write.
@@ -209,6 +215,62 @@ func (c *Conn) Read(p []byte) (int, error) {
 }
 
 func (c *Conn) Write(p []byte) (int, error) {
+	win := c.nw.Window
+	if win <= 0 {
+		return c.writeUnbounded(p)
+	}
+	now := func() int64 { return vrt.Cur().Now() }
+	space := func() int { return win - c.peer.Pending() }
+	expired := func() bool { return c.wdl > 0 && now() >= c.wdl }
+	// one Write at a time per connection
+	vrt.Wait("net.Conn.Write", "net-write-lock", func() bool { return !c.writing || c.closed || c.rst }, false, c.obj)
+	if c.closed {
+		return 0, &net.OpError{Op: "write", Net: "tcp", Source: c.local, Addr: c.remote, Err: net.ErrClosed}
+	}
+	c.writing = true
+	defer func() { c.writing = false }()
+	written := 0
+	for {
+		vrt.Wait("net.Conn.Write", "net-write", func() bool {
+			return c.closed || c.rst || c.peer.closed || space() > 0 || expired()
+		}, false, c.obj, c.peer.obj)
+		switch {
+		case c.closed:
+			return written, &net.OpError{Op: "write", Net: "tcp", Source: c.local, Addr: c.remote, Err: net.ErrClosed}
+		case c.rst:
+			return written, &net.OpError{Op: "write", Net: "tcp", Source: c.local, Addr: c.remote, Err: syscall.EPIPE}
+		}
+		n := len(p) - written
+		if !c.peer.closed {
+			if s := space(); s <= 0 {
+				// deadline passed with the window still full
+				return written, &net.OpError{Op: "write", Net: "tcp", Source: c.local, Addr: c.remote, Err: os.ErrDeadlineExceeded}
+			} else if n > s {
+				n = s
+			}
+		}
+		b := append([]byte(nil), p[written:written+n]...)
+		c.Sent = append(c.Sent, b...)
+		seq := 0
+		if c.nw.SeqFn != nil {
+			seq = c.nw.SeqFn()
+		}
+		c.Chunks = append(c.Chunks, Chunk{T: now(), G: vrt.Cur().Self().Name(), B: b, Seq: seq})
+		if c.peer.closed {
+			c.rst = true
+			return len(p), nil
+		}
+		if len(b) > 0 {
+			c.peer.in = append(c.peer.in, b)
+		}
+		written += n
+		if written == len(p) {
+			return written, nil
+		}
+	}
+}
+
+func (c *Conn) writeUnbounded(p []byte) (int, error) {
 	vrt.Wait("net.Conn.Write", "net-write", nil, false, c.obj, c.peer.obj)
 	if c.closed {
 		return 0, &net.OpError{Op: "write", Net: "tcp", Source: c.local, Addr: c.remote, Err: net.ErrClosed}
@@ -285,9 +347,12 @@ func (c *Conn) Reset() {
 	c.in, c.peer.in = nil, nil
 }
 
-func (c *Conn) LocalAddr() net.Addr           { return c.local }
-func (c *Conn) RemoteAddr() net.Addr          { return c.remote }
-func (c *Conn) SetDeadline(t time.Time) error { return nil }
+func (c *Conn) LocalAddr() net.Addr  { return c.local }
+func (c *Conn) RemoteAddr() net.Addr { return c.remote }
+func (c *Conn) SetDeadline(t time.Time) error {
+	c.SetReadDeadline(t)
+	return c.SetWriteDeadline(t)
+}
 
 // SetReadDeadline sets a virtual read deadline (zero = none).
 func (c *Conn) SetReadDeadline(t time.Time) error {
@@ -301,7 +366,19 @@ func (c *Conn) SetReadDeadline(t time.Time) error {
 	}
 	return nil
 }
-func (c *Conn) SetWriteDeadline(t time.Time) error { return nil }
+
+// SetWriteDeadline sets a virtual write deadline (zero = none); it only matters with a Window.
+func (c *Conn) SetWriteDeadline(t time.Time) error {
+	if t.IsZero() {
+		c.wdl = 0
+		return nil
+	}
+	c.wdl = int64(t.Sub(vrt.Epoch))
+	if d := c.wdl - vrt.Cur().Now(); d > 0 {
+		vrt.NewTimer(time.Duration(d))
+	}
+	return nil
+}
 
 // Listener is a virtual TCP listener.
 type Listener struct {
